@@ -29,7 +29,7 @@ RULE = ("small valid DEX/AXML/ARSC/APK artefacts x {8 byte values at every offse
         "mutant parsed under an event budget polynomial in the input size; distinct by construction (artefact, fault); "
         "non-trivial = the mutant got past the header check (parsing proper was exercised)")
 ASSUMPTIONS = ["termination is judged by a deterministic interpreter-event budget B(n)=3e5+300 n+2 n^2, not by wall clock",
-               "work inside one C call produces no events; it is bounded separately by user-CPU time of the process (10 s + budget/2e5 s, ITIMER_VIRTUAL, "
+               "work inside one C call produces no events; it is bounded separately by user-CPU time of the process (5 s + budget/5e5 s, ITIMER_VIRTUAL, "
                "independent of machine load), which only a C-level runaway such as a backtracking regular expression can reach",
                "single faults on small artefacts: not all byte strings"]
 MANIFEST = {
@@ -42,7 +42,7 @@ MANIFEST = {
     "note": "Trusted: mc/budget.py (sys.monitoring PY_START/JUMP/BRANCH events), the generators for the seed artefacts.",
 }
 
-RUNAWAY_CAP = 3
+RUNAWAY_CAP = 2
 
 
 # ------------------------------------------------------------------------------------------------ artefacts
@@ -186,9 +186,9 @@ def budget(n):
 
 
 def cpu_bound(B):
-    """user-CPU seconds: 10 s plus the time B events can take at a pessimistic 2e5 events/s, i.e. never reached by work the
+    """user-CPU seconds: 5 s plus the time B events can take at a pessimistic 5e5 events/s (measured: > 2e6/s), i.e. never reached by work the
     event budget sees; only a runaway inside one C call (regular expression) gets here"""
-    return 10 + B / 2e5
+    return 5 + B / 5e5
 
 
 def repair_dex(b):
@@ -300,6 +300,9 @@ def _warm():
     logging.disable(logging.CRITICAL)               # apkInspector logs through the stdlib root logger
 
 
+_RETRIES = [0]
+
+
 def judge(name, base, f):
     """-> (status, events, key or None, msg)"""
     _warm()
@@ -309,7 +312,8 @@ def judge(name, base, f):
     import contextlib
     with contextlib.redirect_stdout(io.StringIO()):     # the ARSC parser print()s diagnostics
         status, val, ev = run_with_budget(lambda: DRIVERS[kind](buf), B, cpu_bound(B))
-        if status == "budget":
+        if status == "budget" and _RETRIES[0] < 3:
+            _RETRIES[0] += 1        # lazy initialisation happens at most a few times per process: so do the second attempts
             # one-time lazy initialisation inside the library (e.g. the system resource-id table that is loaded the first
             # time an attribute id has to be looked up, a regex cache, a lazily imported module) is charged to whichever
             # parse happens to trigger it first in this process; it is not work 'bounded by the input'.  A parse that
@@ -334,7 +338,7 @@ def shards(ctx):
 def space(ctx):
     arts = artefacts(ctx)
     return {"artefacts": {k: len(v) for k, v in sorted(arts.items())}, "substitution_alphabet": "00 01 7f 80 fe ff b^01 b^80" + (" (all 255 for <=400 B)" if ctx.thorough else ""),
-            "word_overwrites": {"32bit": ["0", "1", "7fffffff", "ffffffff"], "16bit": ["0", "ffff"], "64bit": ["%x" % v for v in W64]}, "budget": "3e5 + 300*n + 2*n^2 events", "cpu_bound_for_c_level_work": "10 s + budget/2e5 s of user CPU time (ITIMER_VIRTUAL)",
+            "word_overwrites": {"32bit": ["0", "1", "7fffffff", "ffffffff"], "16bit": ["0", "ffff"], "64bit": ["%x" % v for v in W64]}, "budget": "3e5 + 300*n + 2*n^2 events", "cpu_bound_for_c_level_work": "5 s + budget/5e5 s of user CPU time (ITIMER_VIRTUAL)",
             "runaway_cap_per_shard": RUNAWAY_CAP}
 
 
